@@ -101,10 +101,11 @@ func (p *FullScanPlan) Batch(ctx *ExecuteCtx) ([]KVPair, error) {
 }
 
 type PrefixScanPlan struct {
-	Storage Storage
-	Filter  *FilterExec
-	Prefix  string
-	iter    Cursor
+	Storage  Storage
+	Filter   *FilterExec
+	Prefix   string
+	iter     Cursor
+	finished bool
 }
 
 func NewPrefixScanPlan(s Storage, f *FilterExec, p string) Plan {
@@ -116,6 +117,7 @@ func NewPrefixScanPlan(s Storage, f *FilterExec, p string) Plan {
 }
 
 func (p *PrefixScanPlan) Init() (err error) {
+	p.finished = false
 	p.iter, err = p.Storage.Cursor()
 	if err != nil {
 		return err
@@ -125,17 +127,20 @@ func (p *PrefixScanPlan) Init() (err error) {
 
 func (p *PrefixScanPlan) Next(ctx *ExecuteCtx) ([]byte, []byte, error) {
 	pb := []byte(p.Prefix)
-	for {
+	// The end of the prefix is already seen, do not read further
+	for !p.finished {
 		key, val, err := p.iter.Next()
 		if err != nil {
 			return nil, nil, err
 		}
 		if key == nil {
+			p.finished = true
 			break
 		}
 
 		// Key not have the prefix
 		if !bytes.HasPrefix(key, pb) {
+			p.finished = true
 			break
 		}
 
@@ -161,6 +166,10 @@ func (p *PrefixScanPlan) Batch(ctx *ExecuteCtx) ([]KVPair, error) {
 		chooseIdxes = make([]int, 0, 2*PlanBatchSize)
 		bidx        = 0
 	)
+	// The end of the prefix is already seen, do not read further
+	if p.finished {
+		return nil, nil
+	}
 	for !finish {
 		filterBatch = filterBatch[:0]
 		for i := 0; i < PlanBatchSize; i++ {
@@ -170,11 +179,13 @@ func (p *PrefixScanPlan) Batch(ctx *ExecuteCtx) ([]KVPair, error) {
 			}
 			if key == nil {
 				finish = true
+				p.finished = true
 				break
 			}
 			// Key not have the prefix
 			if !bytes.HasPrefix(key, pb) {
 				finish = true
+				p.finished = true
 				break
 			}
 			filterBatch = append(filterBatch, NewKVP(key, val))
@@ -210,11 +221,12 @@ func (p *PrefixScanPlan) Explain() []string {
 }
 
 type RangeScanPlan struct {
-	Storage Storage
-	Filter  *FilterExec
-	Start   []byte
-	End     []byte
-	iter    Cursor
+	Storage  Storage
+	Filter   *FilterExec
+	Start    []byte
+	End      []byte
+	iter     Cursor
+	finished bool
 }
 
 func NewRangeScanPlan(s Storage, f *FilterExec, start []byte, end []byte) Plan {
@@ -227,6 +239,7 @@ func NewRangeScanPlan(s Storage, f *FilterExec, start []byte, end []byte) Plan {
 }
 
 func (p *RangeScanPlan) Init() (err error) {
+	p.finished = false
 	p.iter, err = p.Storage.Cursor()
 	if err != nil {
 		return err
@@ -241,17 +254,20 @@ func (p *RangeScanPlan) Init() (err error) {
 }
 
 func (p *RangeScanPlan) Next(ctx *ExecuteCtx) ([]byte, []byte, error) {
-	for {
+	// The end of the range is already seen, do not read further
+	for !p.finished {
 		key, val, err := p.iter.Next()
 		if err != nil {
 			return nil, nil, err
 		}
 		if key == nil {
+			p.finished = true
 			break
 		}
 
 		// Key is greater than End
 		if p.End != nil && bytes.Compare(key, p.End) > 0 {
+			p.finished = true
 			break
 		}
 
@@ -276,6 +292,10 @@ func (p *RangeScanPlan) Batch(ctx *ExecuteCtx) ([]KVPair, error) {
 		chooseIdxes = make([]int, 0, 2*PlanBatchSize)
 		bidx        = 0
 	)
+	// The end of the range is already seen, do not read further
+	if p.finished {
+		return nil, nil
+	}
 	for !finish {
 		filterBatch = filterBatch[:0]
 		for i := 0; i < PlanBatchSize; i++ {
@@ -285,11 +305,13 @@ func (p *RangeScanPlan) Batch(ctx *ExecuteCtx) ([]KVPair, error) {
 			}
 			if key == nil {
 				finish = true
+				p.finished = true
 				break
 			}
 			// Key is greater than End
 			if p.End != nil && bytes.Compare(key, p.End) > 0 {
 				finish = true
+				p.finished = true
 				break
 			}
 			filterBatch = append(filterBatch, NewKVP(key, val))
